@@ -185,6 +185,13 @@ TAILS = [b"/*", b"/* a", b"/* a\n * b", b"//", b"// a\\", b"// a\\\n", b'"', b'"
          b"goto", b"sizeof", b"a->", b"a.", b"a,", b"a =", b"a <<", b"try", b"catch (", b"delegate", b"foreach (", b"import", b"@synchronized(", b"^{", b"-(void)",
          b"- (void)a:", b"[a b", b"[a b:", b"x = @[", b"x = @{", b"public:", b"signals:", b"Q_OBJECT", b"SIGNAL(", b"lambda = [", b"[&](", b"[=]() {", b"??", b"?.", b"=>",
          b"assert(", b"invariant", b"unittest", b"version(", b"scope(", b"native", b"forward", b"stock f(", b"new a", b"public f(a"]
+TAILS += [b"/*/", b"/**/", b"/* a */\n/*/", b"/* a */\n/* b", b"/* a */\n/**/", b"// a\n//", b"/* a */ /*/", b"/*/ x", b"/* a */\n/*", b"/**", b"/*!",
+          b"//\\", b"/* a\n", b"/+/", b"/++/"]
+# repetition universe: one token repeated N times (fixed-size tables and recursion depth)
+REP = [b"<", b"< b ", b"(", b"[", b"{", b"*", b"&", b"::", b"a.", b"a->", b"!", b"-", b"if (a) ", b"else ", b"case 1: ", b"{ }", b"()", b"[]", b"<>",
+       b"/**/", b'""', b"#if 1\n", b"#define A \\\n", b"a ? ", b"a, ", b"template<", b"@[", b"^{", b"new ", b"struct s { ", b"namespace n { ", b"try { ",
+       b"do ", b"for (;;) ", b"while (a) ", b"switch (a) { ", b"(int)", b"sizeof ", b"typedef ", b"static ", b"a::", b"> ", b")", b"}", b"]", b"#endif\n",
+       b"a < ", b"f(", b"x = ", b"::a<"]
 A44 = sorted(set(b"\"'/*#\\\r\n\x00\x80\xff@$()[]{}<>RLu8`?:;,.=+-a1 \t%&|!~^"))
 
 
@@ -281,6 +288,15 @@ def check(ctx):
             for pre in ((b"int x;\n",) if quick else (b"", b"int x;\n", b"void f() {\n")):
                 for bn, st in (pq if quick else allprof[:7]):
                     add("tails", "tail%d:%d" % (i, len(pre)), pre + t, lang, bn, st)
+    # (vi) repetitions
+    for lang in skel.LANGS:
+        if quick and lang not in ("C", "CPP", "JAVA", "D", "OC"):
+            continue
+        for i, t in enumerate(REP):
+            for n in ((1030,) if quick else (300, 1030, 4100)):
+                add("repetition", "rep%d:x%d" % (i, n), b"void f() { x = a " + t * n + b"; }\n", lang, "defaults", {})
+                if not quick or i % 2 == 0:
+                    add("repetition", "rep%d:bare%d" % (i, n), t * n + b"\n", lang, "defaults", {})
     # (i) corpus truncations
     nfiles = 0
     for (name, lang, src) in corpus.files():
@@ -308,9 +324,11 @@ def check(ctx):
             single_inputs.append(("%s:%s" % (name, pid), lang, x))
     for lang in (("C",) if quick else skel.LANGS):
         for i, t in enumerate(TAILS):
-            if quick and i % 2:
+            if quick and i % 2 and not t.startswith(b"/"):
                 continue
             single_inputs.append(("tail%d" % i, lang, b"int x;\n" + t))
+            if t.startswith(b"/") and (not quick or len(t) <= 4):
+                single_inputs.append(("ctail%d" % i, lang, b"int x;\n/* a */\n" + t))
     for n_, (cid, lang, x) in enumerate(single_inputs):
         fl = "hooks" if (quick or n_ % 3) else "asan"      # thorough: every third input under the sanitizers, the rest on the plain build
         groups.append(bee.Group("C06", cid, x, lang, "defaults", {}, judge, all_family, None, 1, flavour=fl, quiet=False,
